@@ -249,12 +249,25 @@ func runC05(r *mc.Run) {
 			case 2:
 				crlThis = world.T0
 			}
+			// extensions of the CRL itself that narrow or widen its scope on paper (issuing distribution point flags,
+			// critical or not; a private extension): a CRL that lists a certificate of the chain lists it
+			var crlExts []pkix.Extension
+			crlExt := []int{0, 1, 2, 4, 6, 7}[c.Choose("crl.extensions", 6)]
+			if crlExt != 0 {
+				idp := asn1.ObjectIdentifier{2, 5, 29, 28}
+				v := [][]byte{nil, {0x30, 0x03, 0x85, 0x01, 0xff}, {0x30, 0x03, 0x81, 0x01, 0xff}, {0x30, 0x03, 0x82, 0x01, 0xff}, {0x30, 0x03, 0x84, 0x01, 0xff}, {0x30, 0x04, 0x83, 0x02, 0x01, 0x7e}, {0x30, 0x03, 0x85, 0x01, 0xff}, {0x04, 0x02, 0x01, 0x02}}[crlExt]
+				e := pkix.Extension{Id: idp, Critical: crlExt != 6, Value: v}
+				if crlExt == 7 {
+					e = pkix.Extension{Id: asn1.ObjectIdentifier{1, 2, 840, 113741, 1, 13, 99}, Value: v}
+				}
+				crlExts = []pkix.Extension{e}
+			}
 			id := "crl/" + c.ID() + world.LogTag()
 			if !r.Want(id) {
 				return
 			}
-			pckCrl := world.MakeCRL(world.CRLSpec{Issuer: pckSigners[psg].issuer, Signer: pckSigners[psg].key, Revoked: pckSets[ps].list, Reason: reason, RevokedAt: revAt, EntryExts: entryExts, FirstEntryExts: firstExts, IssuerUTF8: utf8Issuer, AuthorityKeyID: crlAKI, ThisUpdate: crlThis})
-			rootCrl := world.MakeCRL(world.CRLSpec{Issuer: rootSigners[rsg].issuer, Signer: rootSigners[rsg].key, Revoked: rootSets[rs].list, Reason: reason, RevokedAt: revAt, EntryExts: entryExts, FirstEntryExts: firstExts, IssuerUTF8: utf8Issuer, AuthorityKeyID: crlAKI, ThisUpdate: crlThis})
+			pckCrl := world.MakeCRL(world.CRLSpec{Issuer: pckSigners[psg].issuer, Signer: pckSigners[psg].key, Revoked: pckSets[ps].list, Reason: reason, RevokedAt: revAt, EntryExts: entryExts, FirstEntryExts: firstExts, IssuerUTF8: utf8Issuer, AuthorityKeyID: crlAKI, ThisUpdate: crlThis, Exts: crlExts})
+			rootCrl := world.MakeCRL(world.CRLSpec{Issuer: rootSigners[rsg].issuer, Signer: rootSigners[rsg].key, Revoked: rootSets[rs].list, Reason: reason, RevokedAt: revAt, EntryExts: entryExts, FirstEntryExts: firstExts, IssuerUTF8: utf8Issuer, AuthorityKeyID: crlAKI, ThisUpdate: crlThis, Exts: crlExts})
 			fPck := world.MakeCRL(world.CRLSpec{Issuer: F.Inter, Signer: F.InterKey})
 			fRoot := world.MakeCRL(world.CRLSpec{Issuer: F.Root, Signer: F.RootKey})
 			serve := func(kind string, own, other, f []byte, hdr map[string][]string) world.Response {
@@ -388,6 +401,9 @@ func runC05(r *mc.Run) {
 				r.Violate("accepted:"+c05Why(pckSets[ps].benign, rootSets[rs].benign, pckSigners[psg].ok, rootSigners[rsg].ok, endpoints[pep], endpoints[rep], dps[dp], rootSets[rs].name), id,
 					"quote accepted with revocation checking although a CRL is missing, unauthenticated or lists a certificate of the chain", detail)
 				out = "accept!"
+			case opt == 0 && err != nil && cond && crlExt != 0:
+				// a CRL with scope extensions may be refused as a whole: only acceptances are judged for those
+				out = "reject(scope-extension)"
 			case opt == 0 && err != nil && cond:
 				r.Violate("rejected-clean:"+c05Benign(pckSets[ps].name, rootSets[rs].name, dps[dp]), id, "quote rejected although both CRLs are genuine and list none of its certificates: "+errStr(err), detail)
 				out = "reject!"
